@@ -49,7 +49,7 @@ def main():
         args = args[2:]
     names = sorted(d for d in os.listdir(SEEDED)
                    if os.path.exists(os.path.join(SEEDED, d, "patch.diff")) and prop_of(d)
-                   and not d.startswith("control-"))
+                   )
     if args:
         names = [n for n in names if any(a in n for a in args)]
     res = json.load(open(RESULTS)) if os.path.exists(RESULTS) else {}
@@ -61,13 +61,20 @@ def main():
     with ThreadPoolExecutor(max_workers=j) as ex:
         for name, pid, r in ex.map(lambda a: run(*a), jobs):
             key = name if pid == prop_of(name) else name + "@" + pid
+            if name.startswith("control-"):
+                r["expected"] = "silent"
+                r["ok"] = r["exit"] == 0
+            else:
+                r["expected"] = "caught"
+                r["ok"] = r["caught"]
             res[key] = r
-            print("%-40s %s %s %s %.0fs" % (key, pid, "CAUGHT" if r["caught"] else ("NOAPPLY" if not r["applies"] else "MISSED"),
+            print("%-40s %s %s %s %.0fs" % (key, pid, ("SILENT" if r["ok"] else "FALSE-ALARM") if name.startswith("control-") else
+                                            "CAUGHT" if r["caught"] else ("NOAPPLY" if not r["applies"] else "MISSED"),
                                             "" if r["concrete"] or not r["caught"] else "(no concrete input)", r["wall_s"]))
             sys.stdout.flush()
             json.dump(res, open(RESULTS, "w"), indent=1, sort_keys=True)
-    missed = [k for k, v in res.items() if not v["caught"]]
-    print("total %d, caught %d, missed/noapply: %s" % (len(res), len(res) - len(missed), missed))
+    bad = [k for k, v in res.items() if not v.get("ok", v.get("caught"))]
+    print("total %d, as expected %d, not as expected: %s" % (len(res), len(res) - len(bad), bad))
 
 
 if __name__ == "__main__":
